@@ -86,6 +86,11 @@ CHECKS = {
             'Each history is replayed on the implementation and on the text model; outcomes (configuration error at the first impossible edit, parsed lists, table bytes, --list-items / --list-item-labels / --item-value) must coincide.',
             'Relational oracle; command-line phase semantics as stated in the evidence assumptions; exact repetitions of one removal excluded.',
             'DESIGN.md 4/C14'),
+    'C12': (E2, 'model_checking',
+            'stateless explicit-history exploration on the real code: every valid sequence (depth <= 4, thorough 5) of build / evaluate-probe / write operations over 8 models in one long-lived process, compared after every step with a pure reference obtained in a fresh process; environment dimension owned by seams: all 24 iteration orders of every library-built set (PermSet), fresh processes under 10 hash seeds, frozen clock for xlsx',
+            'Every history is an implementation run; any dependence of bytes or probe values on earlier builds, evaluations or writes, on set iteration order or on the hash seed is a difference from the fresh-process reference.',
+            'Seams are harness-side patches (mc/seams.py). Bounded: 8 models, depth <= 5; sets built outside the four seam modules are covered by the hash-seed runs only. Known finding F03 (xlsx time stamps) is listed in known_findings.json.',
+            'DESIGN.md 4/C12'),
 }
 
 NOT_YET = 'check not built yet in this revision of /verif (bounded exhaustive exploration applies; see DESIGN.md section 4)'
